@@ -18,7 +18,7 @@ RULE = ('lock-step: case = (word from a reference row of LDM/STM IA/IB/DA/DB, PU
         'changed; distinct = (row, IT position, configuration) or (round-trip encoding pair, list)')
 ASSUMPTIONS = ['vf/ref/sem_mem.py transcribes the block-transfer pseudocode; UNKNOWN values (base in list with write-back, '
                'stored base, registers of an aborted LDM) are not compared']
-CTXS = [('v7-pmsa-r', 'off'), ('v6-pmsa-sec', 'off'), ('v7-vmsa-sec', 'off'), ('v5-pmsa', 'off')]
+CTXS = [('v7-pmsa-r', 'off'), ('v6-pmsa-sec', 'off'), ('v7-vmsa-sec', 'off'), ('v5-pmsa', 'off'), ('v7-vmsa-virt', 'off'), ('v4-pmsa', 'off')]
 BASES = [0x8, 0x10, 0x40, 0x1000, 0x7FC0, 0x11000, 0x11FC0, 0xFFFFF800, 0xFFFFFFC0, 0xFFFFFFF0, 0xFFFFFFF8, 0x0, 0x4]
 
 
@@ -46,7 +46,7 @@ def plan(tier, seed):
 def run_shard(spec):
     if spec['kind'] == 'roundtrip':
         return roundtrip(spec)
-    return L.run_rows(ID, spec, FAMILY, ctxs=CTXS, regs_fn=regs, after=after)
+    return L.run_rows(ID, spec, FAMILY, ctxs=CTXS, regs_fn=regs, after=after, solve_addr=0.15)
 
 
 def roundtrip(spec):
